@@ -3,7 +3,8 @@
    completion theorems (Env/*Proofs.v: no dead end, offered steps never raise, step bound, done is stable).
    Only statements closed by [exact], their Print Assumptions, and Examples.  Proofs: Compose/GenCompleteRouting.v (CVRP,
    CVRPTW, SVRP, OP, PDP), Compose/GenCompleteMTVRP.v, Compose/GenCompleteSched.v (FJSP, JSSP, FFSP, SMTWTP),
-   Compose/GenCompleteGraph.v (FLP, MCP, ATSP).
+   Compose/GenCompleteGraph.v (FLP, MCP, ATSP), Compose/GenCompleteRouting2.v (PART 3 at the end of this file: TSP, mTSP,
+   PCTSP, SPCTSP, MDCPDP, SDVRP).
 
    PART 1, routing.  Reading guide.
    [adm i acts = true] every action of [acts] lies inside the mask of the state it is taken in (started from reset);
@@ -589,3 +590,192 @@ Example C18_compose_nonvacuous_atsp :
   acost (GenCompleteGraph.gen_atsp_inst false 3 128 0 1 U) = [[0; 100; 3]; [50; 0; 60]; [64; 1; 0]]%Z /\
   ATSPProofs.atsp_wfb (GenCompleteGraph.gen_atsp_inst false 3 128 0 1 U) = true.
 Proof. vm_compute. repeat split. Qed.
+
+(* ================================================================================================================
+   PART 3, routing, second batch: TSP, mTSP, PCTSP / SPCTSP, MDCPDP, SDVRP (generator models of Data/GenRouting2.v, which
+   emit the env units' own records and state their guarantees in the env units' own predicates: the bridges are direct).
+   Proofs: Compose/GenCompleteRouting2.v.  The env modules are only Required: names are written TSP.TSP, MTSP.MTSP, ...
+   TSP:    [gen_tsp D], D the n x n symmetric distance table; fixed length: done exactly after n steps, mask empty then.
+   mTSP:   [gen_mtsp k D], k = the randint draw of num_agents in [lo, hi], n nodes (depot included), n >= 2; C = any model
+           configuration (the cost type min-max / sum does not enter C02).
+   PCTSP / SPCTSP: [gen_pctsp S stochastic num_loc maxpen draws D thr], one draw triple (penalty, deterministic prize,
+           stochastic factor) per customer; [stochastic] selects the prize vector in use (false = PCTSP, true = SPCTSP).
+   MDCPDP: [with_start (gen_mdcpdp num_loc num_depot c D one lw opn mode) k]: num_loc rounded up to even, one capacity
+           column c in [lo, hi] with lo >= 1, start depot k < num_depot (0 = start_mode "order", any k = "random");
+           the model switch is [repaired] (the running code); C02's statements for this env are about LIVE action lists
+           (no proper prefix finished) and say separately what happens after the row has finished (padding).
+   SDVRP:  SDVRPEnv uses CVRPGenerator unchanged: [gen_cvrp]. *)
+From RL4CO Require Import Data.GenRouting2 Compose.GenCompleteRouting2.
+From RL4CO Require Env.TSP Env.TSPProofs Env.MTSP Env.MTSPProofs Env.PCTSP Env.PCTSPProofs Env.MDCPDP Env.MDCPDPDefs
+                      Env.MDCPDPProofs Env.SDVRP Env.SDVRPProofs.
+
+(* ================================================================ TSP: gen_tsp_wf x tsp_no_dead_end, tsp_step_ok, tsp_bound,
+   tsp_done_iff, tsp_done_stable *)
+Theorem C18_tsp_generated_instances_complete :
+  forall (n : nat) (D : list (list Z)),
+    (1 <= n)%nat -> length D = n -> (forall r, In r D -> length r = n) ->
+    (forall a b, (a < n)%nat -> (b < n)%nat -> mget D a b = mget D b a) ->
+    let i := gen_tsp D in
+    forall acts : list nat, EnvSig.adm (E:=TSP.TSP) i acts = true ->
+      (EnvSig.done TSP.TSP i (EnvSig.run (E:=TSP.TSP) i acts) = false ->
+       anyb (EnvSig.mask TSP.TSP i (EnvSig.run (E:=TSP.TSP) i acts)) = true) /\
+      (forall a, EnvSig.offered (E:=TSP.TSP) i (EnvSig.run (E:=TSP.TSP) i acts) a = true ->
+                 EnvSig.stepok TSP.TSP i (EnvSig.run (E:=TSP.TSP) i acts) a = true) /\
+      (length acts <= n)%nat /\
+      (EnvSig.done TSP.TSP i (EnvSig.run (E:=TSP.TSP) i acts) = true <-> length acts = n) /\
+      (forall a, EnvSig.adm (E:=TSP.TSP) i (acts ++ [a]) = true -> EnvSig.done TSP.TSP i (EnvSig.run (E:=TSP.TSP) i acts) = true ->
+                 EnvSig.done TSP.TSP i (EnvSig.run (E:=TSP.TSP) i (acts ++ [a])) = true).
+Proof. exact gen_tsp_complete. Qed.
+Print Assumptions C18_tsp_generated_instances_complete.
+
+(* ================================================================ mTSP: gen_mtsp_wf x mtsp_no_dead_end_b, mtsp_step_ok_b,
+   mtsp_bound_b (n - 1 cities plus at most min(k - 1, n - 2) depot returns), mtsp_done_stable_b *)
+Theorem C18_mtsp_generated_instances_complete :
+  forall (C : MTSP.mtsp_cfg) (lo hi k : Z) (n : nat) (D : list (list Z)),
+    1 <= lo -> lo <= k <= hi ->
+    (2 <= n)%nat -> length D = n -> (forall r, In r D -> length r = n /\ forall x, In x r -> 0 <= x) ->
+    (forall a, (a < n)%nat -> mget D a a = 0) ->
+    let i := gen_mtsp k D in
+    forall acts : list nat, EnvSig.adm (E:=MTSP.MTSP exact C) i acts = true ->
+      anyb (EnvSig.mask (MTSP.MTSP exact C) i (EnvSig.run (E:=MTSP.MTSP exact C) i acts)) = true /\
+      (forall a, EnvSig.offered (E:=MTSP.MTSP exact C) i (EnvSig.run (E:=MTSP.MTSP exact C) i acts) a = true ->
+                 EnvSig.stepok (MTSP.MTSP exact C) i (EnvSig.run (E:=MTSP.MTSP exact C) i acts) a = true) /\
+      ((forall p q, acts = p ++ q -> q <> [] ->
+          EnvSig.done (MTSP.MTSP exact C) i (EnvSig.run (E:=MTSP.MTSP exact C) i p) = false) ->
+       (length acts <= (n - 1) + Nat.min (Z.to_nat (k - 1)) (n - 2))%nat) /\
+      (forall a, EnvSig.adm (E:=MTSP.MTSP exact C) i (acts ++ [a]) = true ->
+                 EnvSig.done (MTSP.MTSP exact C) i (EnvSig.run (E:=MTSP.MTSP exact C) i acts) = true ->
+                 EnvSig.done (MTSP.MTSP exact C) i (EnvSig.run (E:=MTSP.MTSP exact C) i (acts ++ [a])) = true).
+Proof. exact gen_mtsp_complete. Qed.
+Print Assumptions C18_mtsp_generated_instances_complete.
+
+(* ================================================================ PCTSP and SPCTSP: gen_pctsp_wf x pctsp_no_dead_end,
+   pctsp_step_ok, pctsp_bound, pctsp_done_stable (one model; stochastic = false is PCTSP, true is SPCTSP) *)
+Theorem C18_pctsp_generated_instances_complete :
+  forall (S : Z) (stochastic : bool) (num_loc : Z) (maxpen : Q) (draws : list (Q * Q * Q)) (D : list (list Z)) (thr : Z),
+    0 < S -> 1 <= num_loc -> (0 <= maxpen)%Q -> draws <> [] ->
+    (forall rp rd rs, In (rp, rd, rs) draws ->
+       (0 <= rp)%Q /\ (rp < 1)%Q /\ (0 <= rd)%Q /\ (rd < 1)%Q /\ (0 <= rs)%Q /\ (rs < 1)%Q) ->
+    let i := gen_pctsp S stochastic num_loc maxpen draws D thr in
+    forall acts : list nat, EnvSig.adm (E:=PCTSP.PCTSP exact) i acts = true ->
+      anyb (EnvSig.mask (PCTSP.PCTSP exact) i (EnvSig.run (E:=PCTSP.PCTSP exact) i acts)) = true /\
+      (forall a, EnvSig.offered (E:=PCTSP.PCTSP exact) i (EnvSig.run (E:=PCTSP.PCTSP exact) i acts) a = true ->
+                 EnvSig.stepok (PCTSP.PCTSP exact) i (EnvSig.run (E:=PCTSP.PCTSP exact) i acts) a = true) /\
+      ((forall p q, acts = p ++ q -> q <> [] ->
+          EnvSig.done (PCTSP.PCTSP exact) i (EnvSig.run (E:=PCTSP.PCTSP exact) i p) = false) ->
+       (length acts <= length draws + 1)%nat) /\
+      (forall a, EnvSig.adm (E:=PCTSP.PCTSP exact) i (acts ++ [a]) = true ->
+                 EnvSig.done (PCTSP.PCTSP exact) i (EnvSig.run (E:=PCTSP.PCTSP exact) i acts) = true ->
+                 EnvSig.done (PCTSP.PCTSP exact) i (EnvSig.run (E:=PCTSP.PCTSP exact) i (acts ++ [a])) = true).
+Proof. exact gen_pctsp_complete. Qed.
+Print Assumptions C18_pctsp_generated_instances_complete.
+
+Theorem C18_spctsp_generated_instances_complete :
+  forall (S : Z) (num_loc : Z) (maxpen : Q) (draws : list (Q * Q * Q)) (D : list (list Z)) (thr : Z),
+    0 < S -> 1 <= num_loc -> (0 <= maxpen)%Q -> draws <> [] ->
+    (forall rp rd rs, In (rp, rd, rs) draws ->
+       (0 <= rp)%Q /\ (rp < 1)%Q /\ (0 <= rd)%Q /\ (rd < 1)%Q /\ (0 <= rs)%Q /\ (rs < 1)%Q) ->
+    let i := gen_pctsp S true num_loc maxpen draws D thr in
+    forall acts : list nat, EnvSig.adm (E:=PCTSP.PCTSP exact) i acts = true ->
+      anyb (EnvSig.mask (PCTSP.PCTSP exact) i (EnvSig.run (E:=PCTSP.PCTSP exact) i acts)) = true /\
+      (forall a, EnvSig.offered (E:=PCTSP.PCTSP exact) i (EnvSig.run (E:=PCTSP.PCTSP exact) i acts) a = true ->
+                 EnvSig.stepok (PCTSP.PCTSP exact) i (EnvSig.run (E:=PCTSP.PCTSP exact) i acts) a = true) /\
+      ((forall p q, acts = p ++ q -> q <> [] ->
+          EnvSig.done (PCTSP.PCTSP exact) i (EnvSig.run (E:=PCTSP.PCTSP exact) i p) = false) ->
+       (length acts <= length draws + 1)%nat) /\
+      (forall a, EnvSig.adm (E:=PCTSP.PCTSP exact) i (acts ++ [a]) = true ->
+                 EnvSig.done (PCTSP.PCTSP exact) i (EnvSig.run (E:=PCTSP.PCTSP exact) i acts) = true ->
+                 EnvSig.done (PCTSP.PCTSP exact) i (EnvSig.run (E:=PCTSP.PCTSP exact) i (acts ++ [a])) = true).
+Proof. exact gen_spctsp_complete. Qed.
+Print Assumptions C18_spctsp_generated_instances_complete.
+
+(* ================================================================ MDCPDP: gen_mdcpdp_wf x md_no_dead_end, md_step_ok,
+   md_bound_ok, md_padding at the repaired code, any start depot *)
+Theorem C18_mdcpdp_generated_instances_complete :
+  forall (num_loc num_depot : nat) (lo hi c : Z) (D : list (list Z)) (one lw : Z) (opn : bool) (mode k : nat),
+    (1 <= num_depot)%nat -> 1 <= lo -> lo <= c <= hi ->
+    let N := (num_depot + even_num_loc num_loc)%nat in
+    length D = N -> (forall r, In r D -> length r = N /\ forall x, In x r -> 0 <= x) -> (forall a, (a < N)%nat -> mget D a a = 0) ->
+    0 < one -> 0 <= lw <= one ->
+    (k < num_depot)%nat ->
+    let i := MDCPDPProofs.with_start (gen_mdcpdp num_loc num_depot c D one lw opn mode) k in
+    let E := MDCPDP.MDCPDP exact MDCPDP.repaired in
+    MDCPDPDefs.md_wfb i = true /\ MDCPDPDefs.md_solvableb i = true /\
+    forall acts : list nat, EnvSig.adm (E:=E) i acts = true ->
+      (forall p q, acts = p ++ q -> q <> [] -> EnvSig.done E i (EnvSig.run (E:=E) i p) = false) ->
+      anyb (EnvSig.mask E i (EnvSig.run (E:=E) i acts)) = true /\
+      (forall p a, acts = p ++ [a] -> EnvSig.stepok E i (EnvSig.run (E:=E) i p) a = true) /\
+      (length acts <= even_num_loc num_loc + 2 * num_depot - 1)%nat /\
+      (EnvSig.done E i (EnvSig.run (E:=E) i acts) = true ->
+       forall m : nat,
+         let e := MDCPDP.depot (EnvSig.run (E:=E) i acts) in
+         EnvSig.adm (E:=E) i (acts ++ repeat e m) = true /\
+         EnvSig.done E i (EnvSig.run (E:=E) i (acts ++ repeat e m)) = true /\
+         EnvSig.mask E i (EnvSig.run (E:=E) i (acts ++ repeat e m)) = map (fun j => Nat.eqb j e) (seq 0 N)).
+Proof. exact gen_mdcpdp_complete. Qed.
+Print Assumptions C18_mdcpdp_generated_instances_complete.
+
+(* ================================================================ SDVRP: gen_sdvrp_wf x sdvrp_no_dead_end, sdvrp_step_ok,
+   sdvrp_bound (n customers, ceil(total demand / capacity) vehicle loads), sdvrp_done_stable *)
+Theorem C18_sdvrp_generated_instances_complete :
+  forall (num_loc : Z) (override : option Z) (lo hi : Z) (us : list Q) (D : list (list Z)),
+    1 <= lo <= hi - 1 ->
+    (forall u, In u us -> (inject_Z (lo - 1) <= u)%Q /\ (u < inject_Z (hi - 1))%Q) ->
+    hi - 1 <= cvrp_capacity override num_loc ->
+    let capz := cvrp_capacity override num_loc in
+    let i := gen_cvrp capz us D in
+    forall acts : list nat, EnvSig.adm (E:=SDVRP.SDVRP exact) i acts = true ->
+      anyb (EnvSig.mask (SDVRP.SDVRP exact) i (EnvSig.run (E:=SDVRP.SDVRP exact) i acts)) = true /\
+      (forall a, EnvSig.offered (E:=SDVRP.SDVRP exact) i (EnvSig.run (E:=SDVRP.SDVRP exact) i acts) a = true ->
+                 EnvSig.stepok (SDVRP.SDVRP exact) i (EnvSig.run (E:=SDVRP.SDVRP exact) i acts) a = true) /\
+      ((forall p q, acts = p ++ q -> q <> [] ->
+          EnvSig.done (SDVRP.SDVRP exact) i (EnvSig.run (E:=SDVRP.SDVRP exact) i p) = false) ->
+       (length acts <= Nat.max 1 (2 * (length us + Z.to_nat ((sumZ (map demand_int us) + capz - 1) / capz)) - 3))%nat) /\
+      (forall a, EnvSig.adm (E:=SDVRP.SDVRP exact) i (acts ++ [a]) = true ->
+                 EnvSig.done (SDVRP.SDVRP exact) i (EnvSig.run (E:=SDVRP.SDVRP exact) i acts) = true ->
+                 EnvSig.done (SDVRP.SDVRP exact) i (EnvSig.run (E:=SDVRP.SDVRP exact) i (acts ++ [a])) = true).
+Proof. exact gen_sdvrp_complete. Qed.
+Print Assumptions C18_sdvrp_generated_instances_complete.
+
+(* ================================================================ non-vacuity (second batch) *)
+Example C18_compose_nonvacuous_tsp :
+  let D := [[0; 3; 4]; [3; 0; 5]; [4; 5; 0]]%Z in
+  TSPProofs.tsp_wfb (gen_tsp D) = true /\ EnvSig.adm (E:=TSP.TSP) (gen_tsp D) [1; 2; 0]%nat = true /\
+  EnvSig.done TSP.TSP (gen_tsp D) (EnvSig.run (E:=TSP.TSP) (gen_tsp D) [1; 2; 0]%nat) = true /\
+  EnvSig.done TSP.TSP (gen_tsp D) (EnvSig.run (E:=TSP.TSP) (gen_tsp D) [1; 2]%nat) = false.
+Proof. exact gen_tsp_complete_ex. Qed.
+Example C18_compose_nonvacuous_mtsp :
+  let i := gen_mtsp 2 [[0;1;1;1];[1;0;1;1];[1;1;0;1];[1;1;1;0]]%Z in
+  MTSPProofs.mtsp_wfb i = true /\ MTSPProofs.mtsp_solvableb i = true /\
+  EnvSig.adm (E:=MTSP.MTSP exact MTSP.cfg_code) i [1;0;2;3]%nat = true /\
+  EnvSig.done (MTSP.MTSP exact MTSP.cfg_code) i (EnvSig.run (E:=MTSP.MTSP exact MTSP.cfg_code) i [1;0;2;3]%nat) = true /\
+  EnvSig.done (MTSP.MTSP exact MTSP.cfg_code) i (EnvSig.run (E:=MTSP.MTSP exact MTSP.cfg_code) i [1;0;2]%nat) = false.
+Proof. exact gen_mtsp_complete_ex. Qed.
+Example C18_compose_nonvacuous_pctsp_spctsp :
+  let draws := [((1 # 2), (1 # 2), (3 # 4)); ((1 # 4), (3 # 4), (1 # 4)); ((3 # 4), (1 # 4), (1 # 2))]%Q in
+  let i := fun st => gen_pctsp 1024 st 16 (3 # 8) draws [] 1023 in
+  PCTSP.dprize (i false) = [128; 192; 64]%Z /\ PCTSP.sprize (i true) = [192; 96; 64]%Z /\ PCTSP.pen (i false) = [192; 96; 288]%Z /\
+  PCTSPProofs.pctsp_wfb (i false) = true /\
+  EnvSig.adm (E:=PCTSP.PCTSP exact) (i false) [2; 3; 1; 0]%nat = true /\
+  EnvSig.done (PCTSP.PCTSP exact) (i false) (EnvSig.run (E:=PCTSP.PCTSP exact) (i false) [2; 3; 1; 0]%nat) = true /\
+  EnvSig.done (PCTSP.PCTSP exact) (i false) (EnvSig.run (E:=PCTSP.PCTSP exact) (i false) [2; 3; 1]%nat) = false /\
+  EnvSig.adm (E:=PCTSP.PCTSP exact) (i true) [1; 3; 2; 0]%nat = true /\
+  EnvSig.done (PCTSP.PCTSP exact) (i true) (EnvSig.run (E:=PCTSP.PCTSP exact) (i true) [1; 3; 2; 0]%nat) = true.
+Proof. exact gen_pctsp_complete_ex. Qed.
+Example C18_compose_nonvacuous_mdcpdp :
+  let D := [[0;1;1;1;1;1]; [1;0;1;1;1;1]; [1;1;0;1;1;1]; [1;1;1;0;1;1]; [1;1;1;1;0;1]; [1;1;1;1;1;0]]%Z in
+  let i := MDCPDPProofs.with_start (gen_mdcpdp 3 2 2 D 4 4 false 0) 1 in
+  let E := MDCPDP.MDCPDP exact MDCPDP.repaired in
+  let acts := [0; 2; 3; 4; 5; 0; 1]%nat in
+  even_num_loc 3 = 4%nat /\ MDCPDPDefs.md_wfb i = true /\ MDCPDPDefs.md_solvableb i = true /\
+  EnvSig.adm (E:=E) i acts = true /\ EnvSig.done E i (EnvSig.run (E:=E) i acts) = true /\
+  EnvSig.done E i (EnvSig.run (E:=E) i (removelast acts)) = false /\
+  length acts = (even_num_loc 3 + 2 * 2 - 1)%nat.
+Proof. exact gen_mdcpdp_complete_ex. Qed.
+Example C18_compose_nonvacuous_sdvrp :
+  let i := gen_cvrp (cvrp_capacity (Some 12) 2) [(8 # 1); (17 # 2)]%Q [] in
+  CVRP.dem i = [9; 9]%Z /\ CVRP.cap i = 12%Z /\
+  EnvSig.adm (E:=SDVRP.SDVRP exact) i [1; 2; 0; 2]%nat = true /\
+  EnvSig.done (SDVRP.SDVRP exact) i (EnvSig.run (E:=SDVRP.SDVRP exact) i [1; 2; 0; 2]%nat) = true /\
+  EnvSig.done (SDVRP.SDVRP exact) i (EnvSig.run (E:=SDVRP.SDVRP exact) i [1; 2; 0]%nat) = false.
+Proof. exact gen_sdvrp_complete_ex. Qed.
